@@ -38,7 +38,7 @@ import itertools
 from typing import List
 
 from pydcop.utils.expressionfunction import ExpressionFunction
-from pydcop.utils.simple_repr import SimpleRepr, SimpleReprException
+from pydcop.utils.simple_repr import SimpleRepr, SimpleReprException, simple_repr
 
 VariableName = str
 
@@ -865,6 +865,14 @@ class AgentDef(SimpleRepr):
             self._default_route,
             self._routes,
         ) = state
+
+    def _simple_repr(self):
+        # extra attributes are given to the constructor as keyword arguments:
+        # add them to the repr so that _from_repr passes them back.
+        r = super()._simple_repr()
+        for k, v in self.extra_attr().items():
+            r[k] = simple_repr(v)
+        return r
 
     def __str__(self):
         return "AgentDef({})".format(self.name)
